@@ -63,10 +63,11 @@ def doParse (verbose : Bool) (start cap hex : String) : String :=
   | none => "bad-start"
   | some f =>
     let inp := unhex hex
-    let st0 : PState := { memo := { cap := capOf cap } }
+    let st0 : PState := {}
+    let g : Grammar := { grammar with memoCap := capOf cap }
     -- pp entry: all_consuming(pp_parser)
     let e : PExpr := if start == "pp" then .allConsuming (.call f) else .call f
-    match eval grammar inp (fuelFor inp) e 0 {} st0.init with
+    match eval g inp (fuelFor inp) e 0 {} st0.init with
     | (.ok q _ ts, st) =>
       let h := skelHashL 14695981039346656037 ts
       let base := s!"ok {q} {(leavesL ts).length} {(preL ts).length} {h} {st.dir} {st.vers.length}"
